@@ -10,6 +10,7 @@
 -/
 import Saltpack.Proofs.Receiver
 import Saltpack.Proofs.Authentic
+import Saltpack.Proofs.Attribution
 import Saltpack.Toy
 
 namespace Saltpack.Props.C02
@@ -89,6 +90,81 @@ theorem C02_authentic_or_break (P : Prims) (hP : P.Lawful) (s : Decrypt.State)
         (r.err = none → m = e.plan.length)) ∨
     AuthEnc.Break P s H :=
   AuthEnc.authentic_or_break P hP s hv hhl H hplan hv1 hkey hone items tail
+
+/-! ## attribution: whose MAC key it is -/
+
+/-- **Attribution.** Whenever a header is accepted, for every keyring: the
+    sender the receiver reports is the content of the header's sender secretbox
+    under the payload key it unboxed from its OWN recipient entry (the entry the
+    keyring matched, or a hidden entry one of its secret keys opened), looked up
+    in the keyring (or the ephemeral key itself for an anonymous sender) — and
+    the MAC key under which every later packet must authenticate
+    (`C02_accept_binds`) is `computeMACKeyReceiver` of the receiver's secret key
+    with exactly that reported sender key (V2: and the ephemeral key), this
+    header hash and this recipient position. -/
+theorem C02_attribution (P : Prims) (valid : Validator) (kr : Keyring) (hh : Bytes) (h : EncHeader)
+    (log : List KeyCall) (st : Decrypt.State)
+    (hok : Decrypt.processHeader P valid kr hh h = (log, .ok st)) :
+    Decrypt.validate valid h = .ok () ∧
+    ∃ eph sk pk pos senderKey,
+      kr.importBoxEphemeralKey h.ephemeral = some eph ∧
+      st.payloadKey = pk ∧ st.headerHash = hh ∧ st.position = pos ∧ st.version = h.version ∧
+      st.mki.receiverKey = sk ∧
+      P.sbOpen pk Nonce.senderKeySecretBox h.senderSecretbox = some senderKey ∧ senderKey.length = 32 ∧
+      st.mki.senderIsAnon = (h.ephemeral == senderKey) ∧
+      (st.mki.senderIsAnon = false → kr.lookupBoxPublicKey senderKey = some st.mki.senderKey) ∧
+      (st.mki.senderIsAnon = true → st.mki.senderKey = eph) ∧
+      (Decrypt.macKeyReceiver P h.version pos sk st.mki.senderKey eph hh).2 = .ok st.macKey ∧
+      pk.length = 32 ∧
+      ∃ r nonce, h.receivers[pos]? = some r ∧ Nonce.payloadKeyBox h.version pos = .ok nonce ∧
+        P.unbox sk eph nonce r.box = some pk ∧
+        (st.mki.receiverIsAnon = false →
+          (∃ k, r.kid = some k ∧ k ≠ []) ∧
+          ∃ i, kr.lookupBoxSecretKey st.mki.namedReceivers = (i, some sk) ∧ 0 ≤ i ∧
+            (Decrypt.visibleIndices h.receivers)[i.toNat]? = some pos ∧
+            st.mki.namedReceivers[i.toNat]? = some (Decrypt.kidOf r)) ∧
+        (st.mki.receiverIsAnon = true →
+          Decrypt.isHidden r = true ∧ sk ∈ kr.getAllBoxSecretKeys) :=
+  decrypt_attribution P valid kr hh h log st hok
+
+/-- the MAC key, spelled out (V1 / V2) -/
+theorem C02_mackey_v1 (P : Prims) (valid : Validator) (kr : Keyring) (hh : Bytes) (h : EncHeader)
+    (log : List KeyCall) (st : Decrypt.State)
+    (hok : Decrypt.processHeader P valid kr hh h = (log, .ok st)) (hv : h.version.major = 1) :
+    st.macKey = macKeySingle P st.mki.receiverKey st.mki.senderKey (Nonce.macKeyBoxV1 hh) :=
+  decrypt_mackey_v1 P valid kr hh h log st hok hv
+
+theorem C02_mackey_v2 (P : Prims) (valid : Validator) (kr : Keyring) (hh : Bytes) (h : EncHeader)
+    (log : List KeyCall) (st : Decrypt.State)
+    (hok : Decrypt.processHeader P valid kr hh h = (log, .ok st)) (hv : h.version.major = 2) :
+    ∃ eph, kr.importBoxEphemeralKey h.ephemeral = some eph ∧
+      st.macKey = sum512Truncate256 P
+        (macKeySingle P st.mki.receiverKey st.mki.senderKey (Nonce.macKeyBoxV2 hh false st.position) ++
+         macKeySingle P st.mki.receiverKey eph (Nonce.macKeyBoxV2 hh true st.position)) :=
+  decrypt_mackey_v2 P valid kr hh h log st hok hv
+
+/-- …and it is the key the sender whose public key is reported computes for this
+    recipient (lawful primitives: Diffie–Hellman commutes), so `C02_accept_binds`
+    + `C02_authentic_or_break` speak about packets MACed by the holder of the
+    reported sender's secret key (or of the receiver's own) -/
+theorem C02_sender_receiver_agree_v1 (P : Prims) (hP : P.Lawful) (valid : Validator) (kr : Keyring)
+    (hh : Bytes) (h : EncHeader) (log : List KeyCall) (st : Decrypt.State)
+    (hok : Decrypt.processHeader P valid kr hh h = (log, .ok st)) (hv : h.version = v1)
+    (senderSecret ephSecret recipientPub : Bytes)
+    (hs : st.mki.senderKey = P.boxPub senderSecret)
+    (hr : P.boxPub st.mki.receiverKey = recipientPub) :
+    Encrypt.macKeySender P h.version st.position senderSecret ephSecret recipientPub hh = .ok st.macKey :=
+  sender_and_receiver_agree_v1 P hP valid kr hh h log st hok hv senderSecret ephSecret recipientPub hs hr
+
+theorem C02_sender_receiver_agree_v2 (P : Prims) (hP : P.Lawful) (valid : Validator) (kr : Keyring)
+    (hh : Bytes) (h : EncHeader) (log : List KeyCall) (st : Decrypt.State)
+    (hok : Decrypt.processHeader P valid kr hh h = (log, .ok st)) (hv : h.version = v2)
+    (senderSecret ephSecret recipientPub : Bytes)
+    (hs : st.mki.senderKey = P.boxPub senderSecret)
+    (he : kr.importBoxEphemeralKey h.ephemeral = some (P.boxPub ephSecret))
+    (hr : P.boxPub st.mki.receiverKey = recipientPub) :
+    Encrypt.macKeySender P h.version st.position senderSecret ephSecret recipientPub hh = .ok st.macKey :=
+  sender_and_receiver_agree_v2 P hP valid kr hh h log st hok hv senderSecret ephSecret recipientPub hs he hr
 
 /-! ## non-vacuity -/
 example : Toy.prims.Lawful := Toy.lawful
